@@ -73,10 +73,13 @@ extern "C" int LLVMFuzzerTestOneInput(const uint8_t *data, size_t size) {
     // uninitialised values that reach the output: same input under two heap fills
     if ((fz::hash(data, size) & 3) == 0) {
       fz::g.detChecks++;
-      fillnew::set(0x00); Outcome a = compileOnce(text, xcmp::DriverAction::EMIT_BINARY);
-      fillnew::set(0xA5); Outcome b = compileOnce(text, xcmp::DriverAction::EMIT_BINARY);
+      fillnew::set(0x00); fillnew::poisonStack(0x00); Outcome a = compileOnce(text, xcmp::DriverAction::EMIT_BINARY);
+      fillnew::set(0xA5); fillnew::poisonStack(0xA5); Outcome b = compileOnce(text, xcmp::DriverAction::EMIT_BINARY);
+      fillnew::set(0x00); fillnew::poisonStack(0x00); Outcome la = compileOnce(text, xcmp::DriverAction::EMIT_ASM);
+      fillnew::set(0xA5); fillnew::poisonStack(0xA5); Outcome lb = compileOnce(text, xcmp::DriverAction::EMIT_ASM);
       fillnew::set(-1);
-      if (a.threw != b.threw || a.file != b.file) fz::oracleFail("binary depends on the contents of fresh heap memory (use of an uninitialised value)");
+      if (a.threw != b.threw || a.file != b.file) fz::oracleFail("binary depends on the contents of fresh heap/stack memory (use of an uninitialised value)");
+      if (la.threw != lb.threw || la.text != lb.text) fz::oracleFail("listing depends on the contents of fresh heap/stack memory (use of an uninitialised value)");
     }
   }
   if ((fz::hash(data, size) & 7) == 1) {
